@@ -350,9 +350,14 @@ def run_dgs(K, g, tier="quick", seed=0, parts=("dg_dgs", "dvel_dgs", "dacc_dgs")
             fn = "cs_%d_%s_%s_dgs" % (K, g, bn)
             bufs = [("c", (K + 1) * R, "d"), ("u", None, "d"), ("l", nj, "d"), ("lv", nj, "d"), ("la", nj, "d"), ("r", nj, "d"), ("rv", nj, "d"), ("ra", nj, "d")]
             envs = []
-            for _ in range(6 if tier == "quick" else 20):
+            for it_ in range(6 if tier == "quick" else 20):
                 e = ctrl_env(G, K, rng, isvec)
                 e["u"] = rng.choice([0.5, 0.25, rng.uniform(0.05, 0.95)])
+                if it_ % 3 == 2:
+                    # two consecutive control points coincide (a zero difference): the Jacobians w.r.t. both are still non-trivial
+                    j_ = rng.randrange(K)
+                    for k_ in range(R):
+                        e["c%d" % ((j_ + 1) * R + k_)] = e["c%d" % (j_ * R + k_)]
                 envs.append(e)
             views = xt.run_concolic(fn, bufs, envs)
             res.functions.add("smooth::cspline_eval_dg_dgs<%d,%s>" % (K, ty))
@@ -373,8 +378,8 @@ def run_dgs(K, g, tier="quick", seed=0, parts=("dg_dgs", "dvel_dgs", "dacc_dgs")
                 if pv.status != "ok":
                     res.add(oid, "refuted", "struct", 0.0, "%s: %s" % (pv.status, pv.detail[:200]), extra=dict(confirmed=False))
                     continue
-                if pv.cls not in ("closed", "plain"):
-                    continue
+                if pv.cls not in ("closed", "plain") and not isvec:
+                    continue        # a series branch of exp / dr_expinv is active (vector groups have none: every path is exact there)
                 for nm, a_, b_ in (("dg_dgs", "l", "r"), ("dvel_dgs", "lv", "rv"), ("dacc_dgs", "la", "ra")):
                     if nm not in parts:
                         continue
